@@ -6,6 +6,9 @@ package vecengine
 //
 // gBranchOf models the EventBranch table: the global branch ID recorded for an event.
 //@ ghost gBranchOf[hash.Event] int
+//@ // gHBI / gLAI model what the owner's GetHighestBefore / GetLowestAfter callbacks return for an event
+//@ ghost gHBI[hash.Event] HighestBeforeI
+//@ ghost gLAI[hash.Event] LowestAfterI
 //@ // nOnDrop / nOnDbReset count the calls of the two optional callbacks
 //@ ghost nOnDrop int
 //@ ghost nOnDbReset int
@@ -82,3 +85,35 @@ package vecengine
 //@   modifies vi.bi
 //@   ensures  old(vi.bi) != nil ==> vi.bi == old(vi.bi)
 //@   ensures  old(vi.bi) == nil ==> biwf(vi.bi, len(vi.validators.values))
+//@
+//@ // ---- the vector interfaces have one implementation (package vecfc); every call is checked to be on it and is
+//@ // then specified by the concrete method's contract ----
+//@ iface HighestBeforeI.InitWithEvent = method github.com/Fantom-foundation/lachesis-base/vecfc (*HighestBeforeSeq).InitWithEvent
+//@ iface HighestBeforeI.IsEmpty = method github.com/Fantom-foundation/lachesis-base/vecfc (*HighestBeforeSeq).IsEmpty
+//@ iface HighestBeforeI.IsForkDetected = method github.com/Fantom-foundation/lachesis-base/vecfc (*HighestBeforeSeq).IsForkDetected
+//@ iface HighestBeforeI.Seq = method github.com/Fantom-foundation/lachesis-base/vecfc (*HighestBeforeSeq).Seq
+//@ iface HighestBeforeI.MinSeq = method github.com/Fantom-foundation/lachesis-base/vecfc (*HighestBeforeSeq).MinSeq
+//@ iface HighestBeforeI.SetForkDetected = method github.com/Fantom-foundation/lachesis-base/vecfc (*HighestBeforeSeq).SetForkDetected
+//@ iface HighestBeforeI.CollectFrom = method github.com/Fantom-foundation/lachesis-base/vecfc (*HighestBeforeSeq).CollectFrom
+//@ iface HighestBeforeI.GatherFrom = method github.com/Fantom-foundation/lachesis-base/vecfc (*HighestBeforeSeq).GatherFrom
+//@ iface LowestAfterI.InitWithEvent = method github.com/Fantom-foundation/lachesis-base/vecfc (*LowestAfterSeq).InitWithEvent
+//@ iface LowestAfterI.Visit = method github.com/Fantom-foundation/lachesis-base/vecfc (*LowestAfterSeq).Visit
+//@ // isHB(h): h is a non-nil, well-formed highest-before vector; hv(h): its bytes
+//@ spec isHB(h HighestBeforeI) bool = typeis(h, "*vecfc.HighestBeforeSeq") && unbox(h, "*vecfc.HighestBeforeSeq") != nil && hbwf(deref(unbox(h, "*vecfc.HighestBeforeSeq")))
+//@ spec hv(h HighestBeforeI) []byte = deref(unbox(h, "*vecfc.HighestBeforeSeq"))
+//@
+//@ // branch lists: every listed branch exists and belongs to the creator it is listed under
+//@ spec bilists(bi *BranchesInfo, n int) bool = forall(c, 0, n, forall(j, 0, len(bi.BranchIDByCreators[c]), bi.BranchIDByCreators[c][j] < len(bi.BranchIDCreatorIdxs) && bi.BranchIDCreatorIdxs[bi.BranchIDByCreators[c][j]] == c))
+//@
+//@ // setForkDetected marks every branch of the creator of branchID as fork in the vector
+//@ func (*Engine).setForkDetected
+//@   requires vi != nil && valid(vi.validators) && biwf(vi.bi, len(vi.validators.values)) && bilists(vi.bi, len(vi.validators.values)) && isHB(before) && branchID < len(vi.bi.BranchIDCreatorIdxs)
+//@   modifies deref(unbox(before, "*vecfc.HighestBeforeSeq")), deref(unbox(before, "*vecfc.HighestBeforeSeq"))[*]
+//@   ensures  [wf] isHB(before)
+//@   ensures  [marked] forall(j, 0, len(vi.bi.BranchIDByCreators[vi.bi.BranchIDCreatorIdxs[branchID]]), hbFork(hv(before), vi.bi.BranchIDByCreators[vi.bi.BranchIDCreatorIdxs[branchID]][j]))
+//@   ensures  [others] forall(br int, br >= 0 && forall(j, 0, len(vi.bi.BranchIDByCreators[vi.bi.BranchIDCreatorIdxs[branchID]]), vi.bi.BranchIDByCreators[vi.bi.BranchIDCreatorIdxs[branchID]][j] != br) ==> hbSeq(hv(before), br) == old(hbSeq(hv(before), br)) && hbMin(hv(before), br) == old(hbMin(hv(before), br)))
+//@   loop 1 modifies deref(unbox(before, "*vecfc.HighestBeforeSeq")), deref(unbox(before, "*vecfc.HighestBeforeSeq"))[*]
+//@   loop 1 invariant arrof(hv(before)) == arrof(atentry(hv(before))) || arrfresh(hv(before), _loopalloc)
+//@   loop 1 invariant 0 <= _k && _k <= len(_range) && isHB(before)
+//@   loop 1 invariant forall(j, 0, _k, hbFork(hv(before), _range[j]))
+//@   loop 1 invariant forall(br int, br >= 0 && forall(j, 0, _k, _range[j] != br) ==> hbSeq(hv(before), br) == old(hbSeq(hv(before), br)) && hbMin(hv(before), br) == old(hbMin(hv(before), br)))
